@@ -82,6 +82,15 @@ CHECKS = {
              "whole 5x5 grid and on nearly collinear float triples.",
         note=NOTE_COMMON + "Partial: 'an accepting filter verdict on arbitrary floats is the exact sign' (Shewchuk bound) is oracle-checked, not proved.",
     ),
+    "C11": dict(
+        technique="Lean 4 theorems over linearly ordered fields (crossing rule, boundary rule, left-edge shortcut, Devillers permutation and reduction steps) + bit-exact correspondence + exact rational even-odd oracle with exhaustive small grids",
+        text="Theorems: the counter's sign-adjusted determinant test is exactly 'the edge meets the ray strictly right of the point' (C11_crossing_sign), a zero "
+             "determinant on a straddling edge is exactly 'the point is on the edge' (C11_zero_det_on_edge), edges strictly left never count "
+             "(C11_left_edge_never_counts), and the permutation and reduction steps of Devillers' routine preserve sign*determinant. The whole routine "
+             "(SignOfDet2x2 + counter) is mirrored in Lean Float and compared with Go and with the exact even-odd rule on every triangle of the 4x4 grid "
+             "against every grid point each run, plus random rings up to 2^26.",
+        note=NOTE_COMMON + "Partial: termination/correctness of the Euclidean loop and the fold over all edges are oracle-checked (exhaustively on small grids), not proved.",
+    ),
 }
 
 _PENDING = "check not built yet in this session (work in progress; see DESIGN.md §9 build order)"
